@@ -59,9 +59,10 @@ StrProbes == { [t |-> "", len |-> 0, lang |-> FALSE], [t |-> "a", len |-> 1, lan
                [t |-> "nl_ab", len |-> 3, lang |-> FALSE], [t |-> "AB", len |-> 2, lang |-> FALSE], [t |-> "uni3", len |-> 3, lang |-> FALSE] }
 \* pattern_derived: the type is a customization (pattern a+b) OF a type with ANOTHER pattern (x+y) that has already been used to
 \* validate a value: the facets in force are those of the type itself, whatever its ancestors were asked before
-StrFacets == {"minlen2", "maxlen3", "len2to3", "pattern", "pattern_maxlen3", "pattern_derived"}
+\* pattern_alt: the pattern a|ab (alternation): the WHOLE text must be in the language - "ab" is
+StrFacets == {"minlen2", "maxlen3", "len2to3", "pattern", "pattern_maxlen3", "pattern_derived", "pattern_alt"}
 ValidStr(f, p) == CASE f = "minlen2" -> p.len >= 2 [] f = "maxlen3" -> p.len <= 3 [] f = "len2to3" -> p.len >= 2 /\ p.len <= 3
-                    [] f \in {"pattern", "pattern_derived"} -> p.lang [] f = "pattern_maxlen3" -> p.lang /\ p.len <= 3
+                    [] f = "pattern_alt" -> p.t \in {"a", "ab"} [] f \in {"pattern", "pattern_derived"} -> p.lang [] f = "pattern_maxlen3" -> p.lang /\ p.len <= 3
 StrCases == {[group |-> "str", ty |-> "Unicode", facet |-> f, text |-> p.t, valid |-> ValidStr(f, p)] : f \in StrFacets, p \in StrProbes}
 EnumCases == {[group |-> "enum", ty |-> "Enum", facet |-> "red_green", text |-> x, valid |-> x \in {"red", "green"}] :
                 x \in {"red", "green", "blue", "RED", "", "redgreen", "red_sp"}}
@@ -75,6 +76,10 @@ OccCases == {[group |-> "occ", ty |-> "Integer", mino |-> mi, maxo |-> ma, count
 NilCases == {[group |-> "nil", ty |-> ty, nillable |-> nl, mino |-> mi, how |-> h, dflt |-> df,
               valid |-> CASE h = "nil" -> nl [] h = "absent" -> mi = 0 [] h = "value" -> TRUE] :
                 ty \in {"Integer", "Unicode"}, nl \in BOOLEAN, mi \in 0..1, h \in {"nil", "absent", "value"}, df \in BOOLEAN}
+            \* ... for a Date (dict documents: null is not a date TEXT, it is no value)
+            \cup {[group |-> "nil", ty |-> "Date", nillable |-> nl, mino |-> mi, how |-> h, dflt |-> FALSE,
+              valid |-> CASE h = "nil" -> nl [] h = "absent" -> mi = 0 [] h = "value" -> TRUE] :
+                nl \in BOOLEAN, mi \in 0..1, h \in {"nil", "absent", "value"}}
             \* ... and the same for an OBJECT (a class customized to be non-nillable / mandatory)
             \cup {[group |-> "nil", ty |-> "Obj", nillable |-> nl, mino |-> mi, how |-> h, dflt |-> FALSE,
               valid |-> CASE h = "nil" -> nl [] h = "absent" -> mi = 0 [] h = "value" -> TRUE] :
@@ -91,6 +96,9 @@ DateCases == {[group |-> "date", ty |-> "DateTime", facet |-> f, delta |-> d, of
 \* ------------------------------------------------- mandatory members, own and inherited
 \* Der(Bas{m: Integer, mandatory}){n: Integer, mandatory}: a value lacking either member is invalid, whichever class declared it
 InhCases == {[group |-> "inh", ty |-> "Der", omit |-> o, valid |-> o = "none"] : o \in {"none", "m", "n", "both"}}
+
+\* ------------------------------------------------- a mandatory member that travels under another name (sub_name)
+SubNameCases == {[group |-> "subname", ty |-> "Sn", how |-> h, valid |-> h = "present"] : h \in {"present", "absent"}}
 
 \* ------------------------------------------------------------- times of day
 \* the bound has a sub-second part (hh:00:00.25); the probes spell fractions with one to six digits: ".3" is three tenths
@@ -136,7 +144,7 @@ OutCases == {[group |-> "out", ty |-> "ByteArray", facet |-> e, bytes |-> b, lit
                  <<"Double", "1e+22">>, <<"Double", "1e-07">>, <<"Double", "-0.0">>, <<"Double", "inf">>, <<"Double", "nan">>,
                  <<"Integer", "123456789012345678901234567890">>, <<"Unicode", "lt_amp">>, <<"Unicode", "sp_lead">> }}
 
-Cases == ObjArrCases \cup NumCases \cup BigCases \cup StrCases \cup EnumCases \cup OccCases \cup NilCases \cup DateCases \cup TimeCases \cup InhCases \cup LexCases
+Cases == ObjArrCases \cup NumCases \cup BigCases \cup StrCases \cup EnumCases \cup OccCases \cup NilCases \cup DateCases \cup TimeCases \cup InhCases \cup SubNameCases \cup LexCases
 
 \* ---- laws of the table (anti-vacuity): every facet is effective - some probe is rejected by it
 \* alone - and admits something
